@@ -38,6 +38,8 @@ def _cases():
     return {
         "R2-count-narrowed": (lambda c, r: r2.check_no_count_narrowing(None, 0)(c, r, config="default"), "zero_digits|", ["zero_digits_mod"]),
         "R3c-operand-overflow": (lambda c, r: r3.check_operand_overflow(c, r, config="default"), "top_bit_mask|exp|Add", ["succ_checked"]),
+        "R3c-operand-overflow-abs": (lambda c, r: r3.check_operand_overflow(c, r, config="default"), "scale_by|k|abs", ["scale_by_total"]),
+        "R3c-digit-step": (lambda c, r: r3.check_digit_step_checked(c, r, config="default"), "borrow_one|- 1", ["bump_low"]),
         "R1-constant-cut": (lambda c, r: r1.check_no_constant_cut(c, r, config="default"), "add_assign|resize(2)", []),
         "R2-operand-narrowed": (lambda c, r: r2.check_no_operand_narrowing(c, r, config="default"), "Shl<u64>", []),
         "R8-mul-reaches-long-division": (lambda c, r: r8.check_mul_calls_no_long_division(c, r, config="default"), "div_rem_core", []),
@@ -54,7 +56,7 @@ def selftest(*rules):
             except core.ExtractError as e:
                 res.fail(Finding("R0-selftest", rule, "the fixture crate could not be analysed: %s" % str(e)[:200], file="fixture/src/lib.rs", line=0))
                 continue
-            hits = [x for x in r.findings if x.rule == rule]
+            hits = [x for x in r.findings if x.rule == rule or rule.startswith(x.rule + "-")]
             if not any(must in x.key for x in hits):
                 res.fail(Finding("R0-selftest", rule, "the rule does not report its positive example (`%s`) in /verif/fixture: its silence on /repo proves nothing" % must, file="fixture/src/lib.rs", line=0))
             elif any(c in x.key for x in hits for c in controls):
